@@ -194,18 +194,20 @@ def slot(kinds):
 
 def vtree():
     plain = st.sampled_from([{"k": "text", "s": "p"}, {"k": "text", "s": ""}, {"k": "meta"}, {"k": "dep", "name": "d", "version": "1"}])
-    leaf = gen.opaque(st.one_of(slot(["html", "repr"]), slot(["html", "repr"]), plain))
+    leaf = gen.opaque(st.one_of(slot(["html", "repr", "repr-iter"]), slot(["html", "repr"]), plain))
     rawleaf = gen.opaque(st.one_of(slot(["rawtext", "rawhtml"]), slot(["rawtext", "rawhtml"]), st.sampled_from([{"k": "meta"}, {"k": "dep", "name": "d", "version": "1"}])))
     attr = st.lists(st.tuples(st.sampled_from(["class", "title", "data-x", "style"]), st.lists(markup(), min_size=1, max_size=3)).map(list), max_size=2)
 
     def tag(children):
         return st.builds(
-            lambda nm, ws, attrs, kids, vc: {"k": "tag", "name": nm, "ws": ws, "attrs": attrs, "kids": kids, "via_consolidate": vc},
+            lambda nm, ws, attrs, kids, vc, post: {"k": "tag", "name": nm, "ws": ws, "attrs": attrs, "kids": kids, "via_consolidate": vc, "post": post},
             st.sampled_from(["div", "p", "span", "b", "ul", "x-y"] + gen.SPECIAL_NAMES + gen.RAWISH_NAMES + ["br", "input"]),
             st.booleans(),
             attr,
             st.lists(children, max_size=4),
             st.sampled_from([False, False, True]),
+            # plain values added to the (trusted) class / style afterwards through the helper methods
+            st.lists(st.sampled_from(["add_class", "add_class_prepend", "add_style", "add_style_prepend", "update_other"]), max_size=2),
         )
 
     raw = st.builds(
@@ -249,6 +251,10 @@ class _B:
                 return h.HTML(v)
             if r["kind"] == "repr":
                 return Repr(v, False)
+            if r["kind"] == "repr-iter":
+                from hv.build import ReprIter
+
+                return ReprIter(v, False)  # self-rendering and iterable: still one node
             return v  # rawtext: plain str inside script/style
         if k != "tag":
             return build(r)
@@ -262,7 +268,7 @@ class _B:
             # the public helper: attributes (incl. HTML() values) consolidated, then the tag rebuilt from the result
             self.kinds.add("via-consolidate")
             cattrs, ckids = h.consolidate_attrs(*attrs, *kids)
-            return h.Tag(r["name"], cattrs, *ckids, _add_ws=r["ws"])
+            return self.post(h.Tag(r["name"], cattrs, *ckids, _add_ws=r["ws"]), r)
         if late:
             # children added after construction (append / extend / insert), not through the constructor
             self.kinds.add("late-" + late)
@@ -276,7 +282,18 @@ class _B:
                 for i, kd in enumerate(kids):
                     t.insert(i, kd)
             return t
-        return h.Tag(r["name"], *attrs, *kids, _add_ws=r["ws"])
+        return self.post(h.Tag(r["name"], *attrs, *kids, _add_ws=r["ws"]), r)
+
+    def post(self, t, r):
+        for op in r.get("post") or []:
+            self.kinds.add("post-" + op.split("_prepend")[0])
+            if op.startswith("add_class"):
+                t.add_class("zz", prepend=op.endswith("prepend"))
+            elif op.startswith("add_style"):
+                t.add_style("k:v;", prepend=op.endswith("prepend"))
+            else:
+                t.attrs.update({"data-other": "o"})
+        return t
 
 
 def _renders(objs, case):
@@ -363,7 +380,7 @@ CLAUSES = [
         quick=600,
         thorough=15000,
         shards_quick=4,
-        required=("slot:html", "slot:repr", "slot:rawtext", "slot:rawhtml", "slot:attr", "slot:attr-merge", "prior-plain-render", "long-markup", "slot:late-append", "slot:late-insert", "slot:via-consolidate"),
+        required=("slot:html", "slot:repr", "slot:rawtext", "slot:rawhtml", "slot:attr", "slot:attr-merge", "prior-plain-render", "long-markup", "slot:late-append", "slot:late-insert", "slot:via-consolidate", "slot:repr-iter", "slot:post-add_class", "slot:post-add_style"),
         rule="see RULE",
     ),
 ]
